@@ -41,7 +41,7 @@ MANIFEST = {
             'locator calls tag-free must render to themselves (HTML and '
             'String).  All templates with <= 2 (quick) / <= 3 (thorough) '
             'tags, depth <= 2, over seven tag kinds, with every text slot '
-            'drawn from a 17-fragment near-tag / near-line-end alphabet (at most 2 slots '
+            'drawn from a 18-fragment (incl. the empty text) near-tag / near-line-end alphabet (at most 2 slots '
             'deviating at once), printed in dtml/SSI/EPFS syntax with and '
             'without a newline after block tags, rendered with four '
             'namespaces, must equal the reference rendering (text verbatim, '
@@ -72,7 +72,8 @@ FREE_TOK = {
                'var x'],
 }
 FRAGS = ['<', '<d', '<!--', '&dt', '%', '"', "'", '\n', ' \n', 'ab',
-         '\t \n', '\r\n', '\xa0\n', '\x0c\n', '&dtml-', '&dtml.u', ';']
+         '\t \n', '\r\n', '\xa0\n', '\x0c\n', '&dtml-', '&dtml.u', ';',
+         '']       # '' = the slot is empty (an empty body, no text at all)
 NAMESPACES = [
     {'x': ['lit', 1], 'seq': ['seq', 'list', [['lit', 7], ['lit', 8]]]},
     {'x': ['lit', 0], 'seq': ['seq', 'list', [['lit', 7], ['lit', 8]]]},
@@ -113,6 +114,9 @@ def gen_node(budget, depth):
     for inner in gen_seq(budget - 1, depth - 1):
         used = 1 + ast.count_tags(inner)
         yield ['if', [[N('x'), inner]], None], used
+        if not inner:
+            # if / elif / else: the elif condition is true
+            yield ['if', [[N('x'), []], [N('v'), []]], None], used
         yield ['in', N('seq'), inner, None, []], used
         yield ['with', N('obj'), inner, []], used
         yield ['let', [['z', N('v')]], inner], used
@@ -138,7 +142,7 @@ def fill(n, slots):
     if k in ('var', 'ent'):
         return n
     if k == 'if':
-        return ['if', [[n[1][0][0], interleave(n[1][0][1], slots)]],
+        return ['if', [[r, interleave(b, slots)] for r, b in n[1]],
                 [slots.new()]]
     if k == 'in':
         return ['in', n[1], interleave(n[2], slots), [slots.new()], n[4]]
